@@ -86,7 +86,10 @@ func (l *listener) AcceptWithContext(ctx context.Context) (net.Conn, error) {
 			return nil, ctx.Err()
 		}
 
-		if errors.Is(err, yamux.ErrSessionShutdown) || errors.Is(err, net.ErrClosed) {
+		// Only treat the session as closed if the listener was closed locally,
+		// otherwise the server closed the connection so reconnect.
+		if l.closeCtx.Err() != nil &&
+			(errors.Is(err, yamux.ErrSessionShutdown) || errors.Is(err, net.ErrClosed)) {
 			return nil, ErrClosed
 		}
 
